@@ -22,17 +22,20 @@ Inductive reach : node -> loc -> node -> Prop :=
   | reach_step : forall n r c l m, child_at n r c -> reach c l m -> reach n (r :: l) m.
 
 (* a scalar that is a mapping value or a sequence element, at location l (the
-   root itself is not a place: it has no parent to be reported in) *)
-Definition value_place (d : node) (l : loc) (v : pyval) : Prop :=
-  exists l0 p r i, l = (l0 ++ [r])%list /\ reach d l0 p /\ child_at p r (NLeaf i v).
+   root itself is not a place: it has no parent to be reported in).  Places
+   name the scalar NODE, not just its Python value: an anchored YAML boolean
+   (ruamel's ScalarBoolean, Doc.is_sbool) has the Python value 1/0 but is
+   searched as a Boolean (Searches.search_matches, C12). *)
+Definition value_place (d : node) (l : loc) (s : node) : Prop :=
+  exists l0 p r, l = (l0 ++ [r])%list /\ reach d l0 p /\ child_at p r s /\ is_leaf s = true.
 
-Definition key_place (d : node) (l : loc) (k : pyval) : Prop :=
-  exists l0 i kvs kn v,
-    l = (l0 ++ [key_ref kn])%list /\ reach d l0 (NMap i kvs) /\ In (kn, v) kvs /\ key_val kn = k.
+Definition key_place (d : node) (l : loc) (kn : node) : Prop :=
+  exists l0 i kvs v,
+    l = (l0 ++ [key_ref kn])%list /\ reach d l0 (NMap i kvs) /\ In (kn, v) kvs.
 
-Definition member_place (d : node) (l : loc) (k : pyval) : Prop :=
-  exists l0 i els m,
-    l = (l0 ++ [member_ref m])%list /\ reach d l0 (NSet i els) /\ In m els /\ key_val m = k.
+Definition member_place (d : node) (l : loc) (m : node) : Prop :=
+  exists l0 i els,
+    l = (l0 ++ [member_ref m])%list /\ reach d l0 (NSet i els) /\ In m els.
 
 (* the leaf descendants of a node: the node itself when it is a scalar, the
    scalars reached through mappings and sequences, the members of sets so
@@ -70,13 +73,114 @@ Fixpoint nodup_keys (n : node) : Prop :=
   | NSet _ els => NoDup (map key_val els)
   end.
 
+(* ---- alias-exclusion modes (documents WITH anchors) ----------------------
+
+   An "aliased repeat of an anchored node" is an occurrence of an anchored node
+   (key, value, element or set member) that is the SAME OBJECT (Doc.oid) as an
+   occurrence earlier in document order.  [anc_occs n] lists, in document
+   order (a key before its value, a node before its descendants), the
+   anchored occurrences strictly inside n; [pre] always stands for the list of
+   anchored occurrences that precede the point under consideration. *)
+Definition self_occ (x : node) : list node :=
+  match get_node_anchor x with Some _ => [x] | None => [] end.
+
+Fixpoint anc_occs (n : node) : list node :=
+  match n with
+  | NLeaf _ _ => []
+  | NSeq _ els => flat_map (fun e => self_occ e ++ anc_occs e)%list els
+  | NMap _ kvs => flat_map (fun kv => self_occ (fst kv) ++ self_occ (snd kv) ++ anc_occs (snd kv))%list kvs
+  | NSet _ els => flat_map self_occ els
+  end.
+Definition elem_occs (e : node) : list node := (self_occ e ++ anc_occs e)%list.
+Definition entry_occs (kv : node * node) : list node :=
+  (self_occ (fst kv) ++ self_occ (snd kv) ++ anc_occs (snd kv))%list.
+
+Definition same_oid_in (pre : list node) (x : node) : bool :=
+  existsb (fun y => N.eqb (node_oid y) (node_oid x)) pre.
+Definition is_repeat (pre : list node) (x : node) : bool :=
+  match get_node_anchor x with Some _ => same_oid_in pre x | None => false end.
+
+(* anchor names and object identities go together: two anchored occurrences
+   carry the same name exactly when they are the same object.  ("=>" fails when
+   a document redefines an anchor name: known finding reused_anchor_name.) *)
+Definition anchor_name_eqb (x y : node) : bool :=
+  match get_node_anchor x, get_node_anchor y with
+  | Some a, Some b => String.eqb a b
+  | _, _ => false
+  end.
+Definition names_consistent (l : list node) : bool :=
+  forallb (fun x => forallb (fun y => Bool.eqb (anchor_name_eqb x y) (N.eqb (node_oid x) (node_oid y))) l) l.
+
+Section Visible.
+Variable mt : mtable.
+Variable o : opts.
+
+(* the entry at position pos of the mapping object oi came through `<<:` and
+   neither alias option is on *)
+Definition merged_hidden (oi : N) (pos : nat) : Prop :=
+  is_merged mt oi pos = true /\ o_kalias o = false /\ o_valias o = false.
+
+Definition key_shown (pre : list node) (k : node) : Prop := o_kalias o = false -> is_repeat pre k = false.
+Definition val_shown (pre : list node) (v : node) : Prop := o_valias o = false -> is_repeat pre v = false.
+
+(* walking from n (preceded by pre) along l without passing a merged-in entry
+   or an aliased repeat that the alias options exclude reaches m (preceded by pre') *)
+Inductive vreach : list node -> node -> loc -> list node -> node -> Prop :=
+  | vr_here : forall pre n, vreach pre n [] pre n
+  | vr_elem : forall pre i els idx e l pre' m,
+      nth_error els idx = Some e ->
+      val_shown (pre ++ flat_map elem_occs (firstn idx els))%list e ->
+      vreach ((pre ++ flat_map elem_occs (firstn idx els)) ++ self_occ e)%list e l pre' m ->
+      vreach pre (NSeq i els) (RIdx idx :: l) pre' m
+  | vr_entry : forall pre i kvs pos k v l pre' m,
+      nth_error kvs pos = Some (k, v) ->
+      ~ merged_hidden (oid i) pos ->
+      key_shown (pre ++ flat_map entry_occs (firstn pos kvs))%list k ->
+      val_shown ((pre ++ flat_map entry_occs (firstn pos kvs)) ++ self_occ k)%list v ->
+      vreach (((pre ++ flat_map entry_occs (firstn pos kvs)) ++ self_occ k) ++ self_occ v)%list v l pre' m ->
+      vreach pre (NMap i kvs) (key_ref k :: l) pre' m.
+
+(* the last step: a scalar child s / a key kn / a set member of the container
+   tgt (preceded by pre), itself not excluded *)
+Definition vplace_val (pre : list node) (tgt : node) (r : ref) (s : node) : Prop :=
+  (exists i els idx, tgt = NSeq i els /\ r = RIdx idx /\ nth_error els idx = Some s /\
+                     val_shown (pre ++ flat_map elem_occs (firstn idx els))%list s)
+  \/ (exists i kvs pos k, tgt = NMap i kvs /\ r = key_ref k /\ nth_error kvs pos = Some (k, s) /\
+                          ~ merged_hidden (oid i) pos /\
+                          key_shown (pre ++ flat_map entry_occs (firstn pos kvs))%list k /\
+                          val_shown ((pre ++ flat_map entry_occs (firstn pos kvs)) ++ self_occ k)%list s).
+Definition vplace_key (pre : list node) (tgt : node) (r : ref) (kn : node) : Prop :=
+  exists i kvs pos v, tgt = NMap i kvs /\ r = key_ref kn /\ nth_error kvs pos = Some (kn, v) /\
+                      ~ merged_hidden (oid i) pos /\
+                      key_shown (pre ++ flat_map entry_occs (firstn pos kvs))%list kn.
+Definition vplace_member (pre : list node) (tgt : node) (r : ref) (m : node) : Prop :=
+  exists i els j, tgt = NSet i els /\ r = member_ref m /\ nth_error els j = Some m /\
+                  key_shown (pre ++ flat_map self_occ (firstn j els))%list m.
+End Visible.
+
+(* a check along a container: item x at position pos, preceded by pre *)
+Section AllAt.
+  Context {A : Type}.
+  Variable f : A -> list node.
+  Variable chk : list node -> nat -> A -> bool.
+  Fixpoint all_at (l : list A) (pos : nat) (pre : list node) : bool :=
+    match l with
+    | [] => true
+    | x :: r => chk pre pos x && all_at r (S pos) (pre ++ f x)%list
+    end.
+End AllAt.
+
+(* every occurrence in l is the same object as one in pre *)
+Definition all_rep (pre : list node) (l : list node) : bool := forallb (same_oid_in pre) l.
+
 Section Spec.
 Variable lit : string -> outcome litres.
 Variable re_search : string -> string -> outcome reres.
 Variable tm : terms.
 
-(* the scalar satisfies the search expression *)
-Definition satisfies (v : pyval) : Prop := term_matches lit re_search tm v = Ok true.
+(* the scalar node satisfies the search expression: search_matches, inverted or
+   not, on what the node is to Python (node_hay: a ScalarBoolean, or the value) *)
+Definition satisfies (s : node) : Prop := term_matches lit re_search tm (node_hay s) = Ok true.
 
 (* what a report may be for, under the key/value options *)
 Definition justified (o : opts) (d : node) (h : hit) : Prop :=
@@ -92,5 +196,55 @@ Definition wanted (o : opts) (d : node) (l : loc) : Prop :=
   (o_values o = true /\ exists v, value_place d l v /\ satisfies v)
   \/ (o_keys o = true /\ exists k, key_place d l k /\ satisfies k)
   \/ (exists k, member_place d l k /\ satisfies k).
+
+Definition satisfiesb (s : node) : bool :=
+  match term_matches lit re_search tm (node_hay s) with Ok true => true | _ => false end.
+
+(* Guard of the exclusion theorem: no anchored node is met for the FIRST time
+   inside a part of the document that the search does not enter -- beneath an
+   excluded aliased value / element, beneath the value of an excluded aliased
+   key, inside a merged-in entry when neither alias option is on, beneath a
+   key that satisfies the expression when keys are searched (known finding
+   key_match_prunes_subtree: such an anchor is not recorded, and a later alias
+   of it passes for the original). *)
+Fixpoint exposed (mt : mtable) (o : opts) (n : node) (pre : list node) {struct n} : bool :=
+  match n with
+  | NSeq _ els =>
+      all_at elem_occs
+             (fun pre (_ : nat) e =>
+                if negb (o_valias o) && is_repeat pre e then all_rep (pre ++ self_occ e) (anc_occs e)
+                else exposed mt o e (pre ++ self_occ e)%list)
+             els 0 pre
+  | NMap i kvs =>
+      all_at entry_occs
+             (fun pre pos kv =>
+                let pre2 := ((pre ++ self_occ (fst kv)) ++ self_occ (snd kv))%list in
+                if skip_merged mt o (oid i) pos then all_rep pre (entry_occs kv)
+                else if (negb (o_kalias o) && is_repeat pre (fst kv)) || (o_keys o && satisfiesb (fst kv))
+                        || (negb (o_valias o) && is_repeat (pre ++ self_occ (fst kv)) (snd kv))
+                     then all_rep pre2 (anc_occs (snd kv))
+                     else exposed mt o (snd kv) pre2)
+             kvs 0 pre
+  | _ => true
+  end.
+
+(* the same two notions restricted to what the alias options leave visible *)
+Definition vplace (mt : mtable) (o : opts) (d : node) (l : loc)
+           (what : list node -> node -> ref -> node -> Prop) (s : node) : Prop :=
+  exists l0 r pre tgt, l = (l0 ++ [r])%list /\ vreach mt o [] d l0 pre tgt /\ what pre tgt r s.
+
+Definition vjustified (mt : mtable) (o : opts) (d : node) (h : hit) : Prop :=
+  match h_kind h with
+  | HValue => o_values o = true /\
+              exists s, vplace mt o d (h_loc h) (vplace_val mt o) s /\ is_leaf s = true /\ satisfies s
+  | HKey => o_keys o = true /\ exists k, vplace mt o d (h_loc h) (vplace_key mt o) k /\ satisfies k
+  | HMember => exists m, vplace mt o d (h_loc h) (vplace_member o) m /\ satisfies m
+  | _ => False
+  end.
+
+Definition vwanted (mt : mtable) (o : opts) (d : node) (l : loc) : Prop :=
+  (o_values o = true /\ exists s, vplace mt o d l (vplace_val mt o) s /\ is_leaf s = true /\ satisfies s)
+  \/ (o_keys o = true /\ exists k, vplace mt o d l (vplace_key mt o) k /\ satisfies k)
+  \/ (exists m, vplace mt o d l (vplace_member o) m /\ satisfies m).
 
 End Spec.
